@@ -470,7 +470,7 @@ func C12() *check.Property {
 		Title:    "Pipelines are reusable recipes: subscriptions and operator values independent",
 		Patterns: cat(CorePatterns, PluginPkgs, IOPluginPkgs, []string{PromPkg}, RatePkgs),
 		Scope:    append([]string{ro}, IOPluginPkgs...),
-		Rules:    []check.Rule{ruleStateLevel(), ruleLazySource(), ruleSubscribeMultiplicity(), ruleFreshPerApplication(), ruleObservableParamUsed(), ruleBuildTimeState(), ruleHeadTailDisjoint(), ruleNoHotInCold(), ruleMutableSeed(), ruleNoGlobalState()},
+		Rules:    []check.Rule{ruleStateLevel(), ruleLazySource(), ruleSubscribeMultiplicity(), ruleFreshPerApplication(), ruleObservableParamUsed(), ruleBuildTimeState(), ruleHeadTailDisjoint(), ruleNoHotInCold(), ruleMutableSeed(), ruleNoGlobalState(), ruleApplyAtBuildTime()},
 		Explanation: "Static discipline check (AST + types). Operators are closures at three levels: constructor (once per operator value), application literal func(source) (once per pipeline) " +
 			"and subscribe closure (once per subscription). STATE-LEVEL proves that no write inside a deeper level targets a variable declared at an outer level, so every subscription starts from fresh state and " +
 			"applications do not influence each other; LAZY-SOURCE proves no Subscribe/Connect/Collect runs outside a subscribe closure; SUBSCRIBE-MULTIPLICITY and FRESH-PER-APPLICATION cover at-most-once subscription of " +
@@ -478,7 +478,7 @@ func C12() *check.Property {
 		NotDecided:  "state hidden behind pointers/maps inside user-supplied arguments; equality of the notifications of two subscriptions (follows from fresh state for deterministic sources, not checked).",
 		Assumptions: []string{"go/types resolves every identifier (load is fail-closed)", "hot constructs are exactly those the property lists (Share/ShareReplay via ShareWithConfig, subjects, connectables)"},
 		Floors:      map[string]int{"closures_scanned": 300, "application_literals": 100, "param_observables_subscribed": 90},
-		Controls:    map[string]string{"zz_verif_controls_c12.go": roControl(controlsC12 + controlsHeadTail + controlsNoHotInCold + controlsMutableSeed + controlsGlobal)},
+		Controls:    map[string]string{"zz_verif_controls_c12.go": roControl(controlsC12 + controlsHeadTail + controlsNoHotInCold + controlsMutableSeed + controlsGlobal + controlsApplyAtBuild)},
 	}
 }
 
